@@ -14,6 +14,7 @@ import Rmk.Impl.Heap
 import Rmk.Impl.ByteLength
 import Rmk.Impl.Iters
 import Rmk.Impl.Elem
+import Rmk.Impl.UintExtra
 import Driver.Sexp
 namespace Driver
 open Rmk
@@ -144,6 +145,10 @@ def toHOp : Sexp → Option HOp
   | .list [.atom "sets", i, .list (.atom "s" :: vs)] => do pure (.sets (← atomNat i) (← toVals vs))
   | .list [.atom "setf", i, ft, v] => do pure (.setf (← atomNat i) (← toTy ft) (← toVal v))
   | .list [.atom "seth", i, v] => do pure (.seth (← atomNat i) (← toVal v))
+  | .list [.atom "setb", i, .atom hx] => do
+    -- a raw byte string assigned to an integer position: the little-endian number it denotes
+    let bs ← unhexAux (hx.toList.drop 1)
+    pure (.op (.set (← atomNat i) (.num (fromLE bs))))
   | .list [.atom "chg", .atom sel, v] =>
     if sel.startsWith "-" then some .refused else (toOp (.list [.atom "chg", .atom sel, v])).map .op
   | s => (toOp s).map .op
@@ -694,6 +699,11 @@ def runCase (xs : List Sexp) : Option String :=
     let x ← toOperand xw xv
     let y ← toOperand yw yv
     pure (kv "r" (optStr (fun (p : Nat × Nat) => toString p.1 ++ ":" ++ toString p.2) (Impl.evalBin op x y)))
+  | [.atom "upow3", w, a, e, m] => do
+    pure (kv "r" (optStr toString (Impl.pow3 (← atomNat w) (← atomNat a) (← atomNat e) (← atomInt m))))
+  | [.atom "urefl", op, xw, xv, yw, yv] => do
+    pure (kv "r" (optStr (fun (p : Nat × Nat) => toString p.1 ++ ":" ++ toString p.2)
+      (Impl.reflShiftDunder (← toBinOp op) (← atomNat xw) (← atomNat xv) (← atomNat yw) (← atomNat yv))))
   | [.atom "uinv", w, a] => do
     let w ← atomNat w
     pure (kv "r" (optStr (fun r => toString r ++ ":" ++ toString w) (Impl.invert w (← atomNat a))))
